@@ -219,6 +219,12 @@ func (p *PropertyGenerator) VocabName() string {
 	return p.vocabName
 }
 
+// VocabURI returns this property's vocabulary URI, or nil if the property does
+// not belong to a vocabulary that can be aliased (the JSON-LD 'id' and 'type').
+func (p *PropertyGenerator) VocabURI() *url.URL {
+	return p.vocabURI
+}
+
 // GetKinds gets this property's kinds.
 func (p *PropertyGenerator) GetKinds() []Kind {
 	return p.kinds
